@@ -31,7 +31,7 @@ type listPkg struct {
 	GoFiles    []string
 	Standard   bool
 	DepOnly    bool
-	Module     *struct{ Path string }
+	Module     *struct{ Path, Dir string }
 }
 
 type Finding struct {
@@ -48,7 +48,14 @@ func main() {
 	repo := flag.String("repo", "/repo", "repository root")
 	out := flag.String("out", "", "output directory")
 	pkgs := flag.String("pkgs", "./x/ophost/...,./x/opchild/...", "package patterns")
+	extra := flag.String("extra", "", "comma-separated import paths of dependency packages whose map ranges are instrumented too (no other findings are reported for them)")
 	flag.Parse()
+	extraSet := map[string]bool{}
+	for _, e := range strings.Split(*extra, ",") {
+		if e != "" {
+			extraSet[e] = true
+		}
+	}
 	if *out == "" {
 		fmt.Fprintln(os.Stderr, "need -out")
 		os.Exit(2)
@@ -87,7 +94,7 @@ func main() {
 		if p.Export != "" {
 			exports[p.ImportPath] = p.Export
 		}
-		if !p.DepOnly && !p.Standard {
+		if (!p.DepOnly && !p.Standard) || extraSet[p.ImportPath] {
 			targets = append(targets, p)
 		}
 	}
@@ -127,6 +134,9 @@ func main() {
 				continue
 			}
 			rel, _ := filepath.Rel(*repo, full)
+			if isExtraPkg := extraSet[p.ImportPath]; isExtraPkg {
+				rel = p.ImportPath + "/" + base
+			}
 			src, _ := os.ReadFile(full)
 			type edit struct {
 				from, to int
@@ -135,7 +145,11 @@ func main() {
 			var edits []edit
 			site := 0
 			pos := func(p token.Pos) (int, int) { q := fset.Position(p); return q.Line, q.Offset }
+			isExtra := extraSet[p.ImportPath]
 			add := func(kind string, p token.Pos, detail string, instr, allowed bool) {
+				if isExtra && !instr {
+					return // dependency package: only its map ranges are of interest
+				}
 				l, _ := pos(p)
 				findings = append(findings, Finding{Kind: kind, File: rel, Line: l, Detail: detail, Instrumented: instr, Allowed: allowed})
 			}
@@ -250,7 +264,13 @@ func main() {
 				}
 				// add the import right after the package clause
 				_, pe := pos(af.Name.End())
-				ns = append(ns[:pe], append([]byte("\n\nimport verifmap \"github.com/initia-labs/OPinit/x/verifmap\"\n"), ns[pe:]...)...)
+				vmPath := "github.com/initia-labs/OPinit/x/verifmap"
+				if isExtra && p.Module != nil {
+					// a dependency module gets its own copy of the package (it cannot import the repo's)
+					vmPath = p.Module.Path + "/verifmapx"
+					replace[filepath.Join(p.Module.Dir, "verifmapx", "verifmap.go")] = filepath.Join(*out, "verifmap.go")
+				}
+				ns = append(ns[:pe], append([]byte("\n\nimport verifmap \""+vmPath+"\"\n"), ns[pe:]...)...)
 				dst := filepath.Join(*out, strings.ReplaceAll(rel, "/", "__"))
 				if err := os.WriteFile(dst, ns, 0o644); err != nil {
 					panic(err)
@@ -295,14 +315,10 @@ import (
 	"sync"
 )
 
-type Site struct {
-	Name string
-	N    int
-}
-
+// Session is bound per goroutine by the harness; Choose is told every instrumented map range that
+// is reached (site, number of keys) and answers with the iteration order (nil = canonical order).
 type Session struct {
 	Choose func(site string, n int) []int
-	Log    []Site
 }
 
 var (
@@ -341,18 +357,15 @@ func Order[K comparable, V any](site string, m map[K]V) []K {
 	mu.Lock()
 	s := sessions[gid()]
 	mu.Unlock()
-	if s == nil {
+	if s == nil || s.Choose == nil {
 		return keys
 	}
-	s.Log = append(s.Log, Site{site, len(keys)})
-	if s.Choose != nil {
-		if perm := s.Choose(site, len(keys)); len(perm) == len(keys) {
-			out := make([]K, len(keys))
-			for i, p := range perm {
-				out[i] = keys[p]
-			}
-			return out
+	if perm := s.Choose(site, len(keys)); len(perm) == len(keys) {
+		out := make([]K, len(keys))
+		for i, p := range perm {
+			out[i] = keys[p]
 		}
+		return out
 	}
 	return keys
 }
